@@ -20,6 +20,18 @@ pub fn check(sc: &Scenario, res: &RunResult) -> Vec<Violation> {
         if o.setup_failed {
             continue;
         }
+        if o.died_during {
+            continue; // killed in the middle of this very read: any outcome but a panic is fine
+        }
+        if o.target_dead {
+            // nothing of the target exists any more: every byte returned is fabricated
+            if let Ok(bytes) = &o.result {
+                if !bytes.is_empty() {
+                    out.push(v("C17", "bytes-from-a-dead-target", format!("{} {:#x}+{}: the target had been killed, {} bytes were returned", sname, op.src, op.len, bytes.len())));
+                }
+            }
+            continue;
+        }
         // readable in the target = mapped with read permission
         let readable = k.accessible_run(op.src, op.len, false);
         // bytes that exist at all (FOLL_FORCE view)
